@@ -208,7 +208,7 @@ func run(sum *lib.Summary) {
 	if n == 0 {
 		n = 180
 		if *tier == "thorough" {
-			n = 6000
+			n = 4000
 		}
 	}
 	cw := &lib.CaseWriter{
